@@ -335,6 +335,7 @@ public:
   std::map<char, char> discoveredBy;                // rule -> leaf it reported as discovered in this build
   std::set<std::pair<char, char>> waitEdges;        // (waiter, awaited) requests issued this build
   std::map<char, std::vector<DepRec>> preBuildDeps; // recorded deps before this build (for C07 W)
+  std::map<char, std::string> preBuildLast;         // stored values before this build
   bool cycleReported = false;
   int cycleReports = 0;
   bool violationThisBuild = false;
@@ -652,6 +653,11 @@ public:
       auto it = running.find(k);
       if (it != running.end()) sh.sig = it->second->def.sig;
       sh.deps = issuedDeps[k];
+      // With a database attached a processed completion is what a later process
+      // can know: the persisted view follows it whether or not the engine chose
+      // to write the record (an engine that skips the write must not thereby
+      // justify the re-run it causes after a restart).
+      if (cfg.useDB) disk[k] = sh;
       if (cfg.checkProto && !completedThisBuild.count(k))
         violate("protocol-complete-without-completion", std::string("rule ") + k + " reported complete but its task never completed");
     } else if (cfg.checkC02 && created.count(k)) {
@@ -933,6 +939,28 @@ inline void Session::checkCycleReport(BuildObs& o) {
         violate("bad-cycle-list", "consecutive keys " + c[i] + " -> " + c[i + 1] + " are not a wait-for relationship: " + lst);
         break;
       }
+    // A wait-for edge that exists only as a RECORDED dependency is followed by
+    // the scan in recorded order, and the scan of a rule stops at the first
+    // dependency found changed: an edge behind a changed, earlier-recorded,
+    // non-order-only dependency is never legitimately waited on.
+    for (size_t i = 0; i + 1 < c.size(); ++i) {
+      char from = specKey(c[i]), to = specKey(c[i + 1]);
+      if (waitEdges.count({from, to})) continue;  // requested by a task in this build
+      auto pd = preBuildDeps.find(from);
+      if (pd == preBuildDeps.end()) continue;
+      for (auto& d : pd->second) {
+        if (d.key == c[i + 1]) break;
+        if (d.orderOnly || d.singleUse) continue;
+        char dk = specKey(d.key);
+        auto& rv = refOf(dk);
+        auto pl = preBuildLast.find(dk);
+        if (!rv.first && pl != preBuildLast.end() && rv.second != pl->second) {
+          violate("false-cycle-through-stale-recorded-dependency", "reported cycle waits on " + c[i] + " -> " + c[i + 1] + ", a dependency recorded by an earlier build that lies BEHIND the changed input " +
+                                                                   d.key + " in " + c[i] + "'s recorded order (the scan must stop at the changed input): " + lst);
+          break;
+        }
+      }
+    }
     // is W really cyclic (reachable from the root)?
     std::map<std::string, std::vector<std::string>> adj;
     for (auto& e : W) adj[e.first].push_back(e.second);
@@ -966,7 +994,8 @@ inline BuildObs Session::build(const Event& ev) {
   running.clear(); pending.clear(); refCache.clear(); issuedDeps.clear(); completedValue.clear(); waitEdges.clear(); discoveredBy.clear();
   cycleReported = false; cycleReports = 0; violationThisBuild = false;
   preBuildDeps.clear();
-  for (auto& kv : mem) preBuildDeps[kv.first] = kv.second.deps;
+  preBuildLast.clear();
+  for (auto& kv : mem) { preBuildDeps[kv.first] = kv.second.deps; preBuildLast[kv.first] = kv.second.lastValue; }
   ++buildNo;
   ++tick;
 
